@@ -2299,6 +2299,9 @@ def r8(ctx: RuleCtx) -> None:
                     for c in ast.walk(p_):
                         if not isinstance(c, ast.Call) or c is p_:
                             continue
+                        if isinstance(c.func, ast.Name) and c.func.id == 'map' and len(c.args) >= 2 and not c.keywords and isinstance(c.args[0], (ast.Name, ast.Attribute)):
+                            # map(f, xs)  ==  [f(x) for x in xs]
+                            c = ast.copy_location(ast.Call(func=c.args[0], args=[ast.Name(id='_element', ctx=ast.Load()) for _ in c.args[1:]], keywords=[]), c)
                         res = _resolve_callee(mod, fi, c, at)
                         if res is None:
                             continue
@@ -2307,12 +2310,19 @@ def r8(ctx: RuleCtx) -> None:
                             continue
                         b = L.bind_call(merged, mod.func(qn_), implicit) or {}
                         flag = b.get('is_build_line')
+                        if flag is None and '*' not in b and '**' not in b:
+                            qa = mod.func(qn_).args
+                            dflt = dict(zip(reversed([a_.arg for a_ in qa.posonlyargs + qa.args]), reversed(qa.defaults)))
+                            flag = dflt.get('is_build_line')
                         if isinstance(flag, ast.Constant) and flag.value is True:
                             if quoter not in (None, qn_):
                                 raise Undecided('write(): paths of the build line are quoted by different functions')
                             quoter = qn_
+                        elif isinstance(flag, ast.Constant) and flag.value is False:
+                            ctx.violation(mod, fi.qn, c, f'`{short(c, 70)}` quotes a path of the build line with is_build_line=False: the pattern for variable lines is used, '
+                                          'which does not escape the separators of a build line', c)
                         else:
-                            raise Undecided(f'write(): `{short(c, 60)}` quotes a path of the build line without is_build_line=True')
+                            raise Undecided(f'write(): `{short(c, 60)}` quotes a path of the build line with an is_build_line value the rule does not read')
                 elif isinstance(p_, ast.Call) and isinstance(p_.func, ast.Name) and mod.has_func(p_.func.id) and depth < 3 and \
                         'is_build_line' not in _param_names(mod.func(p_.func.id), skip_self=False):
                     # a module-level helper that builds part of the line: harvest its return expressions
@@ -2326,7 +2336,7 @@ def r8(ctx: RuleCtx) -> None:
                 elif isinstance(p_, ast.Name) and p_.id != lv and depth < 3:
                     # a local is part of the path lists only if quoted paths flow into it (the rule name does not)
                     org = L.Tracer(fi).origins(p_, at)
-                    if any(o.startswith('call:') and mod.has_func(o[5:]) for o in org):
+                    if any((o.startswith('call:') and mod.has_func(o[5:])) or (o.startswith('free:') and (mod.has_func(o[5:]) or mod.has_assign(o[5:]))) for o in org):
                         for d in fi.reaching(p_.id, at):
                             if isinstance(d, L.Def) and d.value is not None and d.kind in ('assign', 'aug'):
                                 harvest(d.value, d.node, depth + 1, fi)
@@ -2670,13 +2680,16 @@ def _resolve_callee(mod: Module, fi: L.FnInfo, c: ast.Call, at: Node) -> T.Optio
         if mod.has_func(f.id) and '.' not in f.id and not (f.id in fi.params or fi.defs().get(f.id)):
             return f.id, c, False
         rs = fi.reaching(f.id, at) if (f.id in fi.params or fi.defs().get(f.id)) else []
-        if len(rs) == 1 and isinstance(rs[0], L.Def) and rs[0].kind == 'assign' and isinstance(rs[0].value, ast.Call) and \
-                call_name(rs[0].value) in ('functools.partial', 'partial') and rs[0].value.args:
-            pc = rs[0].value
+        pc = None
+        at2 = at
+        if len(rs) == 1 and isinstance(rs[0], L.Def) and rs[0].kind == 'assign' and isinstance(rs[0].value, ast.Call):
+            pc, at2 = rs[0].value, rs[0].node
+        elif not rs and mod.has_assign(f.id) and isinstance(mod.assign_value(f.id), ast.Call):
+            pc = mod.assign_value(f.id)          # a module-level binding: NAME = partial(f, ...)
+        if isinstance(pc, ast.Call) and call_name(pc) in ('functools.partial', 'partial') and pc.args and isinstance(pc.args[0], ast.Name) and pc.args[0].id != f.id:
             inner = ast.Call(func=pc.args[0], args=list(pc.args[1:]) + list(c.args), keywords=list(pc.keywords) + list(c.keywords))
             ast.copy_location(inner, c)
-            got = _resolve_callee(mod, fi, inner, rs[0].node)
-            return got
+            return _resolve_callee(mod, fi, inner, at2)
         return None
     cn = call_name(c) or ''
     if cn.count('.') == 1 and cn.split('.')[0] in ('self', 'cls', ELEMENT) and mod.has_func(f'{ELEMENT}.{cn.split(".")[1]}'):
